@@ -161,6 +161,10 @@ pub fn execute(sc: &dyn Scenario, plan: &Plan, env: &Env) -> Rec {
         rec.alt_mode = plan.get("alt_mode") as u8;
         rec.alt_routes = plan.seed | 1;
     }
+    // follow-ups after refused requests (kernel::rec::Rec::after_call) in every run of the tree under test
+    if plan.property != "C20" {
+        rec.aftercare = plan.seed | 1;
+    }
     // a run never sees real entropy or the real clock unless a scenario removes the seams itself
     let prev_e = kernel::seams::set_entropy(Some(Xo::derive(plan.seed, &[0xBA5E])));
     let prev_c = kernel::seams::clock_ns();
